@@ -190,6 +190,13 @@ pub fn junk_body(r: &mut Rng, kind: &str) -> Vec<u8> {
             }
             b
         }
+        "pt_wide_kind" => {
+            // well-formed, and of no kind there is: the number equals SEND only when cut to 8, 16 or 32 bits or
+            // stripped of its sign
+            let off = *r.pick(&[256i128, 65_536, 1 << 32, -65_536, -256, -4]);
+            let control = Val::tuple(vec![Val::int(2 + off), Val::atom(""), wire::gen_pid(r, Some(SUT_NAME))]);
+            wire::pass_through(&control, Some(&Val::atom("stray")))
+        }
         "pt_garbage" => {
             let n = r.range(1, 30) as usize;
             let mut b = vec![112u8, 131];
@@ -267,5 +274,5 @@ pub fn junk_body(r: &mut Rng, kind: &str) -> Vec<u8> {
     }
 }
 
-pub const JUNK_A: &[&str] = &["random", "pt_garbage", "pt_truncated", "wrong_marker", "huge_count", "deep", "tiny"];
-pub const JUNK_B: &[&str] = &["random", "pt_garbage", "pt_truncated", "wrong_marker", "huge_count", "deep", "hdr_truncated", "frag_hdr_short", "hdr_ok_term_bad", "hdr_ok_term_bad", "hdr_zero_refs_cache_ref", "hdr_zero_refs_cache_ref", "tiny", "tiny"];
+pub const JUNK_A: &[&str] = &["random", "pt_wide_kind", "pt_garbage", "pt_truncated", "wrong_marker", "huge_count", "deep", "tiny"];
+pub const JUNK_B: &[&str] = &["random", "pt_wide_kind", "pt_garbage", "pt_truncated", "wrong_marker", "huge_count", "deep", "hdr_truncated", "frag_hdr_short", "hdr_ok_term_bad", "hdr_ok_term_bad", "hdr_zero_refs_cache_ref", "hdr_zero_refs_cache_ref", "tiny", "tiny"];
